@@ -18,7 +18,7 @@ RULE = ("[plus a real-parallelism phase: 8 (thorough 20) `storm` cases, 20k (200
         "arguments are drawn from a pool of 2-9 values of five dynamic types (so that the same value recurs and thresholds are reached, "
         "crossed by one and released), with 0-3 positional arguments - in 25% of the cases up to 12, ParamIndex at late positions "
         "(7..11, -8..-12), several entries with more than 8 arguments alive at once, lists re-used with one position changed - optional "
-        "attachments, WithBatchCount from {0,1,2,5,2^31,2^32-1} on 30% of the entries (<= 5 next to QPS rules), exits of any earlier entry in any order (nested and interleaved across values and resources); in a third of the "
+        "attachments, the positional arguments split over two or three WithArgs options on 30% of the multi-argument entries, WithBatchCount from {0,1,2,5,2^31,2^32-1} on 30% of the entries (<= 5 next to QPS rules), exits of any earlier entry in any order (nested and interleaved across values and resources); in a third of the "
         "cases some Entry calls are made by other goroutines that are held at the yield point between the rule-check loop and the "
         "statistic loop and resumed later in any order (schedules: check/commit interleavings, up to 4 parked at once); reads of a live "
         "entry's Input.Args, a flow rule with threshold 0 on a resource (entries blocked by another slot); in half of the cases some entries end with a business "
@@ -155,6 +155,13 @@ def gen_entry(rng, eid, res, pool, wide=False, batches=None, template=None):
     if rng.random() < 0.25:
         for k in rng.sample(["k", "u", "w"], rng.choice([1, 1, 2])):
             toks.append(f"@{k}={rng.choice(pool) if rng.random() < 0.9 else 'nil'}")
+    # the positional arguments split over two or three WithArgs options of the one call (they are appended)
+    npos = len([t for t in toks if t[0] != "@"])
+    if npos >= 2 and rng.random() < 0.3:
+        for cut in sorted(rng.sample(range(1, npos), min(npos - 1, rng.choice([1, 1, 2]))), reverse=True):
+            toks.insert(cut, "+")
+    elif npos >= 1 and rng.random() < 0.04:
+        toks.insert(rng.choice([0, npos]), "+")      # an empty option before / after
     head = [f"entry {eid} {res}"]
     if batches and rng.random() < 0.3:
         head.append(f"#{rng.choice(batches)}")
@@ -258,7 +265,7 @@ def gen_case(rng, cid, big=False):
             res = rng.choice(ress)
             e = gen_entry(rng, eid, res, pool, wide, batches(res), rng.choice(templates) if (wide and templates) else None)
             if wide:
-                templates.append([t for t in e.split()[3:] if t[0] not in "#@"])
+                templates.append([t for t in e.split()[3:] if t[0] not in "#@+"])
             if rng.random() < p_race and len(parked) < 4:
                 # the same call made by another goroutine, parked between its check and its statistic slots;
                 # often a second one for the same value right behind it (the check-then-act window)
